@@ -213,6 +213,31 @@ pub fn c19() -> Result<u64, String> {
         let raw = compress(code(c), &dir_enc(&es));
         match quiet(|| Directory::from_bytes(&raw, c)) { Ok(Err(_)) => {}, Ok(Ok(_)) => return Err(format!("parser accepted a length-0 entry at index {pos} of {len} ({c:?})")), Err(p) => return Err(format!("parser panicked on a length-0 entry: {p}")) }
     } } }
+    // a length field that is a non-zero multiple of 2^32 (or larger than u32): never `Ok` with an entry of length 0
+    for len in [1usize, 2, 9, 200] { for pos in [0, len / 2, len - 1] { for c in COMPS { for big in [1u64 << 32, 3u64 << 32, (1u64 << 32) + 5, 1u64 << 40] {
+        n += 1;
+        let es = gen_dir(&mut r, len, false);
+        // hand encoding: counts, id deltas, runs, lengths (with the oversized one), offsets (all explicit)
+        let mut raw = Vec::new(); let put = |v: u64, o: &mut Vec<u8>| { let mut v = v; loop { if v < 128 { o.push(v as u8); break; } o.push((v % 128) as u8 + 128); v /= 128; } };
+        put(len as u64, &mut raw); let mut last = 0u64; for e in &es { put(e.id - last, &mut raw); last = e.id; }
+        for e in &es { put(e.run as u64, &mut raw); }
+        for (i, e) in es.iter().enumerate() { put(if i == pos { big } else { e.len as u64 }, &mut raw); }
+        for e in &es { put(e.off + 1, &mut raw); }
+        let z = compress(code(c), &raw);
+        match quiet(|| Directory::from_bytes(&z, c)) { Ok(Err(_)) => {}, Err(p) => return Err(format!("parser panicked on a length field of {big}: {p}")),
+            Ok(Ok(d)) => { if let Some(e) = d.into_iter().find(|e| e.length == 0) { return Err(format!("parser returned Ok with an entry of length 0 (tile id {}) for a length field of {big} = {}*2^32+{} at index {pos} of {len} ({c:?})", e.tile_id, big >> 32, big & 0xffff_ffff)); } } }
+        match quiet(|| block_on(Directory::from_async_reader(&mut futures::io::Cursor::new(z.clone()), z.len() as u64, c))) { Ok(Err(_)) => {}, Err(p) => return Err(format!("async parser panicked on a length field of {big}: {p}")),
+            Ok(Ok(d)) => { if d.into_iter().any(|e| e.length == 0) { return Err(format!("async parser returned Ok with an entry of length 0 for a length field of {big} at index {pos} of {len} ({c:?})")); } } }
+    } } } }
+    // unknown internal compression is refused when opening -- also for an archive without tiles, directories and metadata of length 0
+    for (root_len, meta_len, trail) in [(0u64, 0u64, 0usize), (0, 0, 300), (5, 0, 10), (0, 2, 10)] { n += 1;
+        let h = Hdr { root_off: 127, root_len, meta_off: 127 + root_len, meta_len, leaf_off: 127 + root_len + meta_len, leaf_len: 0, data_off: 127 + root_len + meta_len, data_len: 0,
+            n_addr: 0, n_entries: 0, n_contents: 0, clustered: 1, ic: 0, tc: 1, tt: 1, min_zoom: 0, max_zoom: 3, min_lon: 0, min_lat: 0, max_lon: 0, max_lat: 0, center_zoom: 0, c_lon: 0, c_lat: 0 };
+        let mut b = build_header(&h); b.extend(vec![0u8; (root_len + meta_len) as usize + trail]);
+        match quiet(|| PMTiles::from_bytes(&b).map(|p| p.num_tiles())) { Ok(Err(_)) => {}, Ok(Ok(k)) => return Err(format!("an archive with Unknown internal compression (root directory of {root_len} bytes, metadata of {meta_len} bytes) was opened ({k} tiles)")), Err(p) => return Err(format!("opening Unknown compression panicked: {p}")) }
+        match quiet(|| PMTiles::from_bytes_partially(&b, 3..9).map(|p| p.num_tiles())) { Ok(Err(_)) => {}, Ok(Ok(_)) => return Err(format!("partial open of an archive with Unknown internal compression (root {root_len} bytes) succeeded")), Err(p) => return Err(format!("partial open of Unknown compression panicked: {p}")) }
+        match quiet(|| block_on(PMTiles::from_async_reader(futures::io::Cursor::new(b.clone()))).map(|p| p.num_tiles())) { Ok(Err(_)) => {}, Ok(Ok(_)) => return Err(format!("async: an archive with Unknown internal compression (root {root_len} bytes, metadata {meta_len} bytes) was opened")), Err(p) => return Err(format!("async open of Unknown compression panicked: {p}")) }
+    }
     // metadata that is JSON but not an object; unknown internal compression
     let tiles = gen_tiles(&mut r, 3, 2);
     for c in COMPS { for v in ["null", "true", "0", "1.5", "\"x\"", "[]", "[{}]", "7", "-1", "\"\"", "42", " 1"] {
@@ -266,6 +291,22 @@ pub fn c04() -> Result<u64, String> {
                 _ => { let (b, _) = write_at(pm, 0).map_err(|e| format!("save failed after [{hs}]: {e}"))?; pm = PMTiles::from_bytes(b).map_err(|e| format!("reopen failed after [{hs}]: {e}"))?; hs += "save+reopen "; } }
             check_model(&mut pm, &m, &[2, 3, 4, 5, 6], &hs)?;
         }
+    }
+    // large contents that share their length and a long prefix (70 KiB / 300 KiB, differing in the last or a middle byte) are different tiles
+    for size in [70_000usize, 300_000] { n += 1;
+        let base: Vec<u8> = (0..size).map(|i| (i % 251) as u8).collect();
+        let mut x = base.clone(); *x.last_mut().unwrap() ^= 1; let mut y = base.clone(); y[size - 3000] ^= 0x80;
+        let mut pm: PMTiles<Cursor<Vec<u8>>> = PMTiles::from_bytes(write_at(build(&BTreeMap::new(), Compression::None, &Default::default()), 0).unwrap().0).unwrap();
+        let mut m = Model::new(); let mut hs = String::new();
+        for (id, c) in [(1u64, &base), (2, &x), (3, &y), (1, &x), (4, &base)] {
+            pm.add_tile(id, c.clone()).map_err(|e| e.to_string())?; m.insert(id, c.clone()); hs += &format!("add({id}, {size}-byte content #{}) ", if c == &base { 0 } else if c == &x { 1 } else { 2 });
+            check_model(&mut pm, &m, &[0, 1, 2, 3, 4, 5], &hs)?;
+        }
+        let (b, _) = write_at(pm, 0).map_err(|e| format!("save failed after [{hs}]: {e}"))?; pm = PMTiles::from_bytes(b).map_err(|e| format!("reopen failed after [{hs}]: {e}"))?; hs += "save+reopen ";
+        check_model(&mut pm, &m, &[0, 1, 2, 3, 4, 5], &hs)?;
+        pm.add_tile(5, y.clone()).map_err(|e| e.to_string())?; m.insert(5, y.clone()); pm.remove_tile(3); m.remove(&3); hs += "add(5, #2) remove(3) ";
+        let (b, _) = write_at(pm, 0).map_err(|e| format!("save failed after [{hs}]: {e}"))?; pm = PMTiles::from_bytes(b).map_err(|e| format!("reopen failed after [{hs}]: {e}"))?; hs += "save+reopen ";
+        check_model(&mut pm, &m, &[0, 1, 2, 3, 4, 5], &hs)?;
     }
     // random long histories over a larger alphabet, starting from a foreign archive
     let mut r = Rng::new(seed() ^ 4);
@@ -414,7 +455,7 @@ pub fn c01_c02_c18() -> Result<u64, String> {
     let mut n = 0u64;
     let mut cases: Vec<(Model, Compression, u64)> = Vec::new();
     for round in 0..48 { cases.push((gen_tiles(&mut r, [0, 1, 2, 5, 9, 40][round % 6], 1 << (round % 30)), COMPS[round % 4], [0u64, 1, 10, 127, 4096, 77][round % 6])); }
-    { let mut z31 = Model::new(); for id in [util::tile_id(31, 0, 0), util::tile_id(31, 0, 0) + 5, util::tile_id(31, (1 << 31) - 1, (1 << 31) - 1), util::tile_id(31, 1 << 30, 3), util::tile_id(30, 9, 9), util::tile_id(27, 1, 2)] { z31.insert(id, vec![(id % 251) as u8, 1, 2]); } cases.push((z31, Compression::GZip, 0)); }
+    { let mut z31 = Model::new(); for id in [util::tile_id(31, 0, 0), util::tile_id(31, 0, 0) + 5, util::tile_id(31, (1 << 31) - 1, (1 << 31) - 1), util::tile_id(31, 1 << 30, 3), util::tile_id(30, 9, 9), util::tile_id(27, 1, 2), 6148914691236517204 /* the last id of zoom 31 */, 6148914691236517203] { z31.insert(id, vec![(id % 251) as u8, 1, 2]); } cases.push((z31, Compression::GZip, 0)); }
     cases.push((big_tiles(6000), Compression::None, 0)); cases.push((big_tiles(4080), Compression::None, 24)); cases.push((big_tiles(30000), Compression::GZip, 3)); cases.push((noisy_tiles(12000, &mut r), Compression::GZip, 11)); cases.push((noisy_tiles(9000, &mut r), Compression::Brotli, 0));
     {   // a pre-filled stream that is LONGER than P + archive: the writer must leave the position at the archive's end
         let tiles = gen_tiles(&mut r, 4, 2);
@@ -813,6 +854,18 @@ pub fn c13() -> Result<u64, String> {
             for (id, v) in &tiles { if pm.get_tile_by_id(*id).map_err(|e| format!("lookup through short reads {sched:?}: {e}"))?.as_ref() != Some(v) { return Err(format!("tile {id} differs when read through short reads {sched:?} ({c:?})")); } }
             let h = Header::from_reader(&mut Frag { inner: Cursor::new(want.clone()), sched: sched.clone(), k: 0 }).map_err(|e| format!("header through short reads {sched:?}: {e}"))?;
             if h.num_addressed_tiles != tiles.len() as u64 { return Err("header differs through short reads".into()); }
+        }
+    }
+    {   // a reader-backed tile larger than 1 MiB read through short transfers, and the archive re-saved through them
+        let mut tiles = gen_tiles(&mut r, 4, 2); let big: Vec<u8> = (0..2_600_000u32).map(|i| (i ^ (i >> 8) ^ (i >> 17)) as u8).collect(); tiles.insert(77, big);
+        let (want, _) = write_at(build(&tiles, Compression::None, &Default::default()), 0).map_err(|e| e.to_string())?;
+        for sched in [vec![1_000_000usize, 7], vec![65_536, 1], vec![1_048_576, 3, 500_000], vec![4096]] { n += 1;
+            let rd = Frag { inner: Cursor::new(want.clone()), sched: sched.clone(), k: 0 };
+            let mut pm = PMTiles::from_reader(rd).map_err(|e| format!("open through short reads {sched:?}: {e}"))?;
+            for (id, v) in &tiles { let got = pm.get_tile_by_id(*id).map_err(|e| format!("lookup of a {}-byte tile through short reads {sched:?}: {e}", v.len()))?;
+                if got.as_ref() != Some(v) { return Err(format!("tile {id} ({} bytes) differs when read through short reads {sched:?}: first differing byte at {:?}", v.len(), got.as_ref().and_then(|g| g.iter().zip(v).position(|(a, b)| a != b)))); } }
+            let mut out = Cursor::new(Vec::new()); pm.to_writer(&mut out).map_err(|e| format!("re-save of an archive read through short reads {sched:?}: {e}"))?;
+            if out.get_ref() != &want { return Err(format!("re-saved archive (source read through short reads {sched:?}, one tile of 2.6 MB) is not byte-identical")); }
         }
     }
     {   // compressed leaf directories read through very small fragments (a decoder has not consumed its trailer when the last entry is out)
